@@ -4,7 +4,7 @@ from .. import core, real, gen, e2e
 from ..leandrv import Driver
 
 MODULE = 'Bluebell.Props.C14'
-THEOREMS = ['Bluebell.C14_no_placeholder_element', 'Bluebell.C14_unreferenced_kept', 'Bluebell.C14_missing_content_visible', 'Bluebell.C14_match_is_nearest_first', 'Bluebell.C14_examples', 'Bluebell.C14_resolve_ref_total']
+THEOREMS = ['Bluebell.C14_no_placeholder_element', 'Bluebell.C14_unreferenced_kept', 'Bluebell.C14_missing_content_visible', 'Bluebell.C14_match_is_nearest_first', 'Bluebell.C14_examples', 'Bluebell.C14_resolve_ref_total', 'Bluebell.C14_markers_trimmed_alike']
 
 
 def fn_doc(rng):
